@@ -16,7 +16,7 @@ func init() {
 	fw.Register(&fw.Prop{
 		ID: "C05",
 		Rule: "differential monitor: the seven *Along forms over every shape of rank 1..R (sizes 1..3) x every dim, and the seven whole-tensor forms over every shape of rank 0..R plus large tensors (up to 8192 elements, several rank/size layouts), with position-identifying data in three value classes (unique reals, distinct integers compared exactly, magnitudes up to 1e6); every output element and the output shape are compared with the reference statistic of the corresponding fibre (two-pass unbiased variance, 0 for a single element, Std = sqrt(Var), Avg = Mean). " +
-			"Non-trivial: the operand has >= 2 elements; distinct = (reducer, shape, dim, value class).",
+			"Non-trivial: the operand has >= 2 elements; distinct = (reducer, shape, dim, value class). Later additions: value classes offset (common offset up to 1e9) and patterns (all-equal, sorted, powers of two, denormals, 1e150); sampled shapes with sizes up to 7; one long dimension (127..4097) reduced along it or across it; reducers evaluated on every node of forward chains (operands built by Full/Zeros/Ones/Patch/Reshape/MatMul...).",
 		Assumptions: []string{"sums compared within 1e-11 x sum|x| (order of summation is free), extrema exactly, variance/std within the conditioning bound of the two-pass formula: 8 n eps max|x| maxdev + 1e-9 maxdev^2 (so data with a large common offset still decide it)"},
 		FloorQuick:  20000, FloorThor: 80000,
 		Run: runC05,
